@@ -261,7 +261,7 @@ fn record(case: &Case, scratch: &str) -> Value {
   let sess = Session::start(&yaml_of(&docs), &lsp_root, 0, 2);
   let lrel = format!("t.{}", ls.ext);
   sess.open(&lrel, ls.lang, 1, text);
-  sess.wait_quiescent(25, 5000);
+  sess.wait_handlers(&lrel, 1, 10000);
   let diags: Vec<Value> = sess.published(&lrel).last().map(|(_, _, d)| d.clone()).unwrap_or_default();
   let uri = sess.uri(&lrel);
   let whole = json!({"start": {"line": 0, "character": 0}, "end": {"line": 100000, "character": 0}});
@@ -422,6 +422,7 @@ pub fn drive(vectors: &str, seed: u64, out: &str, thorough: bool) {
     w.put(r);
   }
   let _ = std::fs::remove_dir_all(&scratch);
+  let _ = std::fs::remove_file(crate::lsp::hook_file());
   let n = w.finish();
   util::summary(json!({"records": n, "skipped": skipped, "families": fams.len()}));
 }
